@@ -25,9 +25,11 @@ T_SYNC = 0.2
 SLACK = 0.5  # x T
 
 
-def stray_for(cfg, req, i):
-    """Well-formed message of the session's version that does not match the outstanding request."""
-    return drivers.reply_for(cfg, req, [(SYS, rb.enc_int(1000 + i))], request_id=(req.request_id + 1 + i) & 0x7FFFFFFF)
+def stray_for(cfg, req, i, size=0):
+    """Well-formed message of the session's version that does not match the outstanding request
+    (size > 0: carrying an OCTET STRING of that many octets - larger than the client's receive buffer for 4200)."""
+    val = rb.enc_octets(b"S" * size) if size else rb.enc_int(1000 + i)
+    return drivers.reply_for(cfg, req, [(SYS, val)], request_id=(req.request_id + 1 + i) & 0x7FFFFFFF)
 
 
 def reply_for(cfg, req):
@@ -52,7 +54,7 @@ def run_async_schedule(cfg, strays, reply_at, op="get"):
                 data, addr = agent.recvfrom(65535)
             except BlockingIOError:
                 return
-            state["req"] = drivers.open_request(cfg, data)
+            state["req"] = drivers.open_request(cfg, data, strict=False, check_mac=False)
             state["addr"] = addr
 
     def mk_stray(i):
@@ -183,13 +185,13 @@ def _rclass(r, T):
 # ------------------------------------------------------------------ sync, real time
 
 
-def run_sync_schedule(cfg, strays, reply_at, op="get"):
+def run_sync_schedule(cfg, strays, reply_at, op="get", T=None, size=0):
     """Times in seconds after the request was seen. Returns (outcome, elapsed)."""
     drivers.subject()
     from gufo.snmp.sync_client import SnmpSession
 
     agent = drivers.new_agent_socket(blocking=True)
-    agent.settimeout(2.0)
+    agent.settimeout(2.0 + (T or 0))
     port = agent.getsockname()[1]
     done = threading.Event()
 
@@ -199,10 +201,10 @@ def run_sync_schedule(cfg, strays, reply_at, op="get"):
         except OSError:
             return
         t0 = time.monotonic()
-        req = drivers.open_request(cfg, data)
+        req = drivers.open_request(cfg, data, strict=False, check_mac=False)
         if strays and strays[0] == "flood":
             # non-matching datagrams back to back from strays[1] to strays[2] (the client is busy skipping when T passes)
-            dgs = [stray_for(cfg, req, i) for i in range(8)]
+            dgs = [stray_for(cfg, req, i, size) for i in range(8)]
             delay = t0 + strays[1] - time.monotonic()
             if delay > 0 and done.wait(delay):
                 return
@@ -214,7 +216,7 @@ def run_sync_schedule(cfg, strays, reply_at, op="get"):
                     return
                 i += 1
             return
-        plan = [(t, stray_for(cfg, req, i)) for i, t in enumerate(strays)]
+        plan = [(t, stray_for(cfg, req, i, size)) for i, t in enumerate(strays)]
         if reply_at is not None:
             plan.append((reply_at, reply_for(cfg, req)))
         for t, dg in sorted(plan, key=lambda x: x[0]):
@@ -229,7 +231,7 @@ def run_sync_schedule(cfg, strays, reply_at, op="get"):
 
     th = threading.Thread(target=serve, daemon=True)
     th.start()
-    kw = drivers.session_kwargs(cfg, port, T_SYNC)
+    kw = drivers.session_kwargs(cfg, port, T or T_SYNC)
     s = SnmpSession(**kw)
     t0 = time.monotonic()
     if op == "get":
@@ -300,10 +302,14 @@ def run_sync_sequence(cfg, calls, op="get"):
     return out
 
 
-def judge_sync(strays, reply_at, out, el):
+def judge_sync(strays, reply_at, out, el, T_SYNC=T_SYNC, oversize=False):
     bound = T_SYNC * (1 + SLACK)
     if el > bound:
         return "overrun", "call took %.3f s, timeout is %.2f s (bound %.2f s)" % (el, T_SYNC, bound)
+    if oversize:
+        # a datagram cut off by the receive buffer does not decode: ending the call with SnmpDecodeError is documented
+        # (C04); only the time bound is judged
+        return None
     if reply_at is not None and reply_at <= 0.9 * T_SYNC:
         if out.kind != "ok":
             return "reply-lost", "matching reply sent at %.3f s (< T) but the call ended with %r after %.3f s" % (reply_at, out.brief(), el)
@@ -342,17 +348,19 @@ def work_sync(chunk):
     res = common.Result()
     for case in chunk:
         cfg = Cfg.from_desc(case["cfg"])
-        out, el = run_sync_schedule(cfg, case["strays"], case["reply_at"], case.get("op", "get"))
+        T = case.get("T") or T_SYNC
+        size = case.get("size", 0)
+        out, el = run_sync_schedule(cfg, case["strays"], case["reply_at"], case.get("op", "get"), T, size)
         res.count("schedules")
         res.count("sync_schedules")
         res.distinct()
         res.outcome("sync:" + ("value" if out.kind == "ok" else out.exc_name))
-        v = judge_sync(case["strays"], case["reply_at"], out, el)
+        v = judge_sync(case["strays"], case["reply_at"], out, el, T, bool(size))
         if v:
             confirmed = True
             for _ in range(3):
-                out2, el2 = run_sync_schedule(cfg, case["strays"], case["reply_at"], case.get("op", "get"))
-                v2 = judge_sync(case["strays"], case["reply_at"], out2, el2)
+                out2, el2 = run_sync_schedule(cfg, case["strays"], case["reply_at"], case.get("op", "get"), T, size)
+                v2 = judge_sync(case["strays"], case["reply_at"], out2, el2, T, bool(size))
                 if not v2 or v2[0] != v[0]:
                     confirmed = False
                     break
@@ -360,7 +368,7 @@ def work_sync(chunk):
                 k = len(case["strays"])
                 spacing = "burst" if k and case["strays"][0] != "flood" and case["strays"][0] < 0.1 * T_SYNC else ("flood" if k and case["strays"][0] == "flood" else "spaced")
                 res.violation(
-                    "sync/%s/%s/strays=%s/reply=%s" % (cfg.version, v[0], ("%d-%s" % (k, spacing)) if k else "0", _rclass(case["reply_at"], T_SYNC)),
+                    "sync/%s/%s/strays=%s%s/reply=%s%s" % (cfg.version, v[0], ("%d-%s" % (k, spacing)) if k else "0", "-oversize" if size else "", _rclass(case["reply_at"], T), "/T=%.1f" % T if T != T_SYNC else ""),
                     "strays at %s s, reply at %s s: %s (confirmed on 3 re-runs)" % ([x if isinstance(x, str) else round(x, 3) for x in case["strays"]], case["reply_at"], v[1]),
                     case,
                 )
@@ -428,7 +436,7 @@ def run(tier):
     rec.rule = (
         "arrival schedules: k in {0,1,2,3} strays at every combination of spacings {0, T/2, 0.8T, 0.999T} (and k=5 uniform) x reply at {never, ~0, T/4, between strays, just after the last "
         "stray, 0.999T, 1.001T, 1.7T} x {v1,v2c,v3} on the async client in virtual time (exact); sync client on the real clock: k<=3 strays at 0.8T spacing and bursts of 5 at 0.02T x reply "
-        "at {0.5T, 0.9T, 1.7T, never}, T=0.2 s, bound 1.5T; sequences of 2-3 calls on one session (a call that skipped strays and timed out, then a call whose reply arrives at T/2; a successful call "
+        "at {0.5T, 0.9T, 1.7T, never}, T=0.2 s, bound 1.5T; a flood of strays across the deadline; strays larger than the receive buffer; T = 1.3 s (t: 2.25 s) with strays early and late; sequences of 2-3 calls on one session (a call that skipped strays and timed out, then a call whose reply arrives at T/2; a successful call "
         "after a stray, then silence) and v3 session entry against a silent agent (TimeoutError, in time). Every schedule is distinct."
     )
     rec.assume(
@@ -450,6 +458,14 @@ def run(tier):
             scases.append({"driver": "sync", "cfg": cfg.describe(), "strays": strays, "reply_at": r})
     for strays, r in schedules_sync(False)[::3]:
         scases.append({"driver": "sync", "cfg": Cfg("v2c").describe(), "strays": strays, "reply_at": r, "op": "getnext"})
+    # non-matching datagrams larger than the receive buffer (spaced, and as a flood across the deadline)
+    for cfg in cfgs[:3]:
+        for strays, r in (([0.6 * T_SYNC, 1.2 * T_SYNC, 1.8 * T_SYNC, 2.4 * T_SYNC], None), ([0.3 * T_SYNC], 0.6 * T_SYNC), (["flood", 0.5 * T_SYNC, 1.3 * T_SYNC], None)):
+            scases.append({"driver": "sync", "cfg": cfg.describe(), "strays": strays, "reply_at": r, "size": 4200})
+    # time-outs longer than a second (whole seconds and fraction must both count)
+    for T_long in (1.3, 2.25) if thorough else (1.3,):
+        for strays, r in (([0.1], 0.55 * T_long), ([0.1, 0.2], None), ([], 0.8 * T_long), ([0.85 * T_long], None)):
+            scases.append({"driver": "sync", "cfg": Cfg("v2c").describe(), "strays": strays, "reply_at": r, "T": T_long})
     common.run_cases(rec, work_sync, scases, chunk=3, nproc=8)
     # several calls on one session: the time-out of one call must not leak into the next
     T = T_SYNC
